@@ -1,5 +1,6 @@
 import Driver.Proto
 import Driver.HKmer
+import Driver.HSplitters
 /-!
 `ragc_model`: executes the Lean models behind a one-line-in / one-line-out protocol.
 Every handler returns `none` for a request it does not understand; the reply is then `bad-op`.
@@ -7,7 +8,7 @@ Every handler returns `none` for a request it does not understand; the reply is 
 namespace Driver
 
 def handlers : List (List String → Option String) :=
-  [handleKmer]
+  [handleKmer, handleSplitters]
 
 def dispatch (line : String) : String :=
   let fields := line.trimAscii.toString.splitOn " "
